@@ -1104,3 +1104,49 @@ def km5(P, C):
              "%s: %s — the stored string is modified in place; a shorter value keeps the tail of the old one" % (f.render(bad[0][0])[:80], bad[0][1]))
     if n == 0:
         raise core.AnalysisBroken("KM-5: write_key / remove_key not found")
+
+
+def km6(P, C):
+    """KM-6: the string read returns the stored value as it is."""
+    C.rule("KM-6", "`read_key(key, std::string&)` hands back exactly what `get_aux_value(key)` points at: its result parameter is written once — "
+           "assigned from that pointer — and nothing else touches it (no erase / resize / trim, no algorithm over it). The two lookups of one "
+           "key agree, and a value that ends in blanks is a value", floor=1)
+    fs_ = [g for g in P.fns("read_key") if g.cls == ts.CLS and g.unit == "driver" and len(g.params) == 2 and "string" in g.params[1].get("type", "") and not g.targs]
+    if not fs_:
+        raise core.AnalysisBroken("KM-6: the string overload of read_key was not found")
+    f = fs_[0]
+    rid = f.params[1]["id"]
+    src = None
+    for i in f.walk():
+        if f.k(i) == "DeclStmt":
+            for d in f.nodes[i]["decls"]:
+                if d.get("init", -1) >= 0 and (f.nodes[f.strip(d["init"])].get("callee") or {}).get("name") == "get_aux_value":
+                    src = d["id"]
+    touches = []
+    for i in f.walk():
+        n = f.nodes[i]
+        if n["k"] in ("CXXOperatorCallExpr", "CXXMemberCallExpr", "CallExpr") or ts.assign_parts(f, i):
+            if n["k"] == "CXXMemberCallExpr":
+                me = f.strip(n["ch"][0])
+                o = f.strip(f.ch(me)[0]) if f.ch(me) else -1
+                if o >= 0 and f.k(o) == "DeclRefExpr" and f.nodes[o]["decl"].get("id") == rid:
+                    cname = (n.get("callee") or {}).get("name", "")
+                    if cname not in ("size", "length", "empty", "c_str", "data", "begin", "end", "find", "find_last_not_of", "find_first_not_of", "back", "front", "at", "compare"):
+                        touches.append((i, "member call %s" % cname))
+                    continue
+            ap = ts.assign_parts(f, i)
+            if ap and f.k(f.strip(ap[0])) == "DeclRefExpr" and f.nodes[f.strip(ap[0])]["decl"].get("id") == rid:
+                from_src = ap[1] is not None and any(f.k(y) == "DeclRefExpr" and f.nodes[y]["decl"].get("id") == src for y in f.walk(ap[1])) and \
+                    not any("callee" in f.nodes[y] and (f.nodes[y]["callee"] or {}).get("name") not in ("operator=", "basic_string") for y in f.walk(ap[1]))
+                touches.append((i, "assign-from-stored" if from_src else "assignment from something else"))
+                continue
+            if n["k"] == "CallExpr":
+                for a in f.args(i):
+                    if any(f.k(y) == "DeclRefExpr" and f.nodes[y]["decl"].get("id") == rid for y in f.walk(a)):
+                        touches.append((i, "passed to %s" % (n.get("callee") or {}).get("name")))
+    good = [t for t in touches if t[1] == "assign-from-stored"]
+    bad = [t for t in touches if t[1] != "assign-from-stored"]
+    ok = len(good) == 1 and not bad and src is not None
+    C.ob("KM-6", "read_key(std::string)", "stored-value-returned-as-is", ok, f.loc(bad[0][0]) if bad else f.where(),
+         "the result is assigned once, from the pointer get_aux_value returned" if ok else
+         "the string handed back is not the stored value as it is: %s" % (", ".join("%s at %s" % (t[1], f.loc(t[0])) for t in bad) or "no assignment from the stored value"))
